@@ -402,6 +402,28 @@ def run_track(case, ctx) -> None:
                 if bad:
                     ctx.violation(f"{key}:forward-metrics-not-refreshed-on-a-later-run", f"placeholder {n.name}: {bad}", source=src)
                     break
+    # ---- history: a THIRD call in another grad mode (TorchDynamo compiles the module again): scales_graph() must describe it ----
+    if case["backward"] and case["seed"] % 2 == 0:
+        ins3 = progs.make_inputs(prog, case["seed"] + 177)
+        try:
+            with torch.no_grad():
+                tm(*[t.detach().clone() for t in ins3])
+        except Exception as e:
+            ctx.violation(f"{key}:tracked-module-raises-on-a-later-no_grad-call:{exc_key(e)}", repr(e), source=src)
+            return
+        ctx.count("history:later-call-in-another-grad-mode")
+        graph3 = tm.scales_graph()
+        stale3 = [n.name for n in graph3.nodes if n.op != "output" and "metrics" in n.meta and n.meta["metrics"].bwd is not None]
+        fl3 = [t for t in ins3 if t.is_floating_point()]
+        ph3 = [n for n in graph3.nodes if n.op == "placeholder" and n.meta.get("outputs_float_tensor") and n.name.startswith("l_x")]
+        bad3 = ""
+        for n, t in zip(ph3, fl3):
+            bad3 = stats_match(n.meta["metrics"].fwd, np_stats(t)) if "metrics" in n.meta else "no metrics"
+            if bad3:
+                break
+        if stale3 or bad3:
+            ctx.violation(f"{key}:scales_graph-describes-an-earlier-call-after-a-recompilation",
+                          f"after a later no_grad call: {len(stale3)} nodes still report backward metrics; input placeholder statistics: {bad3 or 'ok'}", source=src)
     if n_float >= 3 and (fanout or case["backward"]):
         ctx.nontrivial(src + f"|bwd={case['backward']}|zeros={case['zeros']}")
 
